@@ -33,8 +33,9 @@ LEVEL_NOTE = ("Trusted: Lean kernel + {propext, Classical.choice, Quot.sound}; t
               "differential (generated scopes below).  Runtime facts stated as contracts and observed on every case, not "
               "proved: jax.random.uniform honours [minval,maxval]; float arithmetic of the grid (model over exact "
               "rationals; compared by equality when the step is dyadic, else within 4 ulp at the scale of the larger "
-              "bound — counted in the tag 'grid_ulp_rule').  RAR replacement of points is outside this check (C16/C17); "
-              "the invariant theorem is stated for any epoch size so that it covers RAR's n_eff.")
+              "bound — counted in the tag 'grid_ulp_rule').  Generators built WITH the RAR set-up (n_start < n, fresh) are "
+              "covered: the whole pre-allocated store and every batch must lie in the domain, for the epoch size "
+              "n_start (theorems for any epoch size); the refinement step itself is C16/C17's.")
 TECHNIQUE = ("Lean 4 proof (ordered-field arithmetic for the grid, case analysis of the constructors, induction over "
              "request histories with the box invariant) + exact differential correspondence with PRNG as oracle")
 THEOREMS = [
@@ -74,6 +75,12 @@ THEOREMS = [
     "Jinns.Domain.holdsPoints_of_box",
     "Jinns.Domain.holdsTimes_of_interval",
     "Jinns.Domain.ode_history_holds",
+    "Jinns.Domain.rarStart_spec",
+    "Jinns.Domain.mkStatioRar_ok",
+    "Jinns.Domain.mkTimesRar_ok",
+    "Jinns.Domain.batches_any_epoch_size",
+    "Jinns.Domain.statio_rar_history",
+    "Jinns.Domain.ode_rar_history",
 ]
 LEAN_MODULES = ["JinnsProofs.C08"]
 RULE = ("cases = (generator kind, method, dtype, domain, counts, batch sizes, number of get_batch calls) or constructor "
@@ -87,7 +94,8 @@ ASSUMPTIONS = [
     "jax.random.choice(replace=False) permutes (checked on every observed reshuffle: oracle_contract)",
     "float grid arithmetic is within 4 ulp (at the scale of the larger bound) of the exact grid; exact when the step "
     "is dyadic",
-    "RAR is off (rar_parameters=None)",
+    "generators built with rar_parameters are fresh (rar_iter_nb = 0: epoch size n_start); the refinement step "
+    "itself (replacement of inactive points) belongs to C16/C17",
 ]
 EXHAUSTIVE = {"quick": False, "thorough": False}
 
@@ -112,7 +120,12 @@ def _ql(a):
     return [_ql(x) for x in a]
 
 
-INTERVALS = [(0.0, 1.0), (-1.0, 1.0), (-3.0, 3.0), (-2.5, -0.5), (0.25, 8.0), (-1024.0, 3.0), (5.0, 5.5), (-0.125, 0.0)]
+INTERVALS = [(0.0, 1.0), (-1.0, 1.0), (-3.0, 3.0), (-2.5, -0.5), (0.25, 8.0), (-1024.0, 3.0), (5.0, 5.5), (-0.125, 0.0),
+             (1.0, 3.0), (-3.0, -1.0)]
+# intervals that do not contain 0 (a store row left at the origin is then outside the domain)
+NOZERO = [(1.0, 3.0), (-3.0, -1.0), (0.25, 8.0), (-2.5, -0.5), (5.0, 5.5)]
+RAR = {"start_iter": 10, "update_every": 5, "sample_size_omega": 4, "selected_sample_size_omega": 2,
+       "sample_size_times": 4, "selected_sample_size_times": 2}
 
 
 def _dom(rng, dim):
@@ -202,6 +215,50 @@ def gen_cases(rng, tier):
                         bb = bt if not cart else rng.randint(1, 3)
                         nb = 4 * (bb + rng.choice([0, 1, 3]))
                     cases.append(_nonstatio(rng, dim, n, b, nb, bb, nt, bt, cart, method, _req(rng, n, b, deep)))
+    # ---- generators built WITH the RAR set-up (fresh, no refinement step): the whole pre-allocated store
+    # (active or not) must lie in the domain, and so must every batch - including the fixed-size slice
+    # that runs past the n_start active points when n_start is not a multiple of the batch size
+    def _rar_sizes(total_choices):
+        n = rng.choice(total_choices)
+        n_start = rng.randint(1, n - 1)
+        divs = [b for b in range(1, n_start + 1) if n_start % b != 0]
+        b = rng.choice(divs) if divs and rng.random() < 0.8 else rng.randint(1, n_start)
+        return n, n_start, b
+
+    for _ in range(6 if deep else 2):
+        for method in ("uniform", "grid"):
+            nt, nt_start, bt = _rar_sizes([4, 5, 7, 8, 12, 16])
+            c = _ode(rng, nt, bt, method, min(60, 2 * (-(-nt_start // bt)) + 2))
+            c["tmin"], c["tmax"] = rng.choice(NOZERO + INTERVALS)
+            c.update({"rar": True, "nt_start": nt_start})
+            cases.append(c)
+    for dim in (1, 2, 3):
+        for _ in range(6 if deep else 2):
+            for method in (("uniform", "grid") if dim == 1 else ("uniform",)):
+                n, n_start, b = _rar_sizes([4, 5, 7, 9, 12, 16])
+                if dim == 2 and rng.random() < 0.5:
+                    nb, bb = 8, 2
+                else:
+                    nb, bb = None, None
+                c = _statio(rng, dim, n, b, nb, bb, method, min(60, 2 * (-(-n_start // b)) + 2))
+                iv = [rng.choice(NOZERO if rng.random() < 0.7 else INTERVALS) for _ in range(dim)]
+                c["mins"], c["maxs"] = [a for a, _ in iv], [z for _, z in iv]
+                c.update({"rar": True, "n_start": n_start})
+                cases.append(c)
+    for dim in (1, 2):
+        for cart in (True, False):
+            for _ in range(3 if deep else 1):
+                n, n_start, b = _rar_sizes([5, 7, 9, 12])
+                nt, nt_start, bt = _rar_sizes([5, 7, 9, 12])
+                if not cart:
+                    bt = b = min(b, bt)
+                c = _nonstatio(rng, dim, n, b, None, None, nt, bt, cart, "uniform",
+                               min(60, 2 * max(-(-n_start // b), -(-nt_start // bt)) + 2))
+                iv = [rng.choice(NOZERO) for _ in range(dim)]
+                c["mins"], c["maxs"] = [a for a, _ in iv], [z for _, z in iv]
+                c["tmin"], c["tmax"] = rng.choice(NOZERO)
+                c.update({"rar": True, "n_start": n_start, "nt_start": nt_start})
+                cases.append(c)
     # more time points than space points and conversely (each store must use its own count)
     for dim in (1, 2):
         for n, nt in ((4, 9), (9, 4), (4, 4), (1, 5)):
@@ -237,6 +294,20 @@ def gen_cases(rng, tier):
         _nonstatio(rng, 2, 4, 2, 8, 2, 3, 4, True, "uniform", 1),    # temporal batch larger than nt
         _nonstatio(rng, 2, 4, 2, 8, 2, 4, 2, True, "foo", 1),
     ]
+    c = _statio(rng, 2, 4, 2, None, None, "uniform", 1); c["rar"] = True          # RAR without n_start
+    bad.append(c)
+    c = _statio(rng, 2, 4, 2, 6, 1, "foo", 1); c["rar"] = True                    # ... comes before the other guards
+    bad.append(c)
+    c = _ode(rng, 4, 2, "uniform", 1); c["rar"] = True                            # RAR without nt_start
+    bad.append(c)
+    c = _nonstatio(rng, 2, 4, 2, None, None, 4, 2, True, "uniform", 1)
+    c.update({"rar": True, "n_start": 2})                                         # n_start given, nt_start missing
+    bad.append(c)
+    c = _nonstatio(rng, 2, 4, 2, None, None, 4, 3, False, "uniform", 1)
+    c.update({"rar": True, "n_start": 2})                                         # pairing guard before nt_start
+    bad.append(c)
+    c = _statio(rng, 2, 4, 2, None, None, "uniform", 1); c["n_start"] = 2         # n_start without RAR: ignored
+    bad.append(c)
     c = _statio(rng, 2, 4, 2, None, None, "uniform", 1)
     c["mins"] = c["mins"][:1]                                  # bounds of the wrong length
     bad.append(c)
@@ -250,6 +321,20 @@ def gen_cases(rng, tier):
 
 
 def shrink_candidates(case):
+    for c in _shrink_candidates(case):
+        if c.get("rar"):
+            if c["kind"] != "ode" and c.get("n_start") and not (1 <= c["n_start"] <= c["n"]):
+                continue
+            if c["kind"] != "statio" and c.get("nt_start") and not (1 <= c["nt_start"] <= c["nt"]):
+                continue
+        yield c
+    if case.get("rar"):
+        for k, tot in (("n_start", "n"), ("nt_start", "nt")):
+            if case.get(k) and case[k] > 1:
+                yield {**case, k: case[k] - 1}
+
+
+def _shrink_candidates(case):
     if case.get("requests", 1) > 1:
         yield {**case, "requests": case["requests"] // 2}
         yield {**case, "requests": case["requests"] - 1}
@@ -277,14 +362,17 @@ def _build(case):
     from jinns.data._DataGenerators import DataGeneratorODE, CubicMeshPDEStatio, CubicMeshPDENonStatio
 
     key = jax.random.PRNGKey(case["seed"])
+    rar = dict(RAR) if case.get("rar") else None
     if case["kind"] == "ode":
-        return DataGeneratorODE(key, case["nt"], case["tmin"], case["tmax"], case["bt"], method=case["method"])
-    kw = dict(key=key, n=case["n"], nb=case["nb"], omega_batch_size=case["b"], omega_border_batch_size=case["bb"],
+        return DataGeneratorODE(key, case["nt"], case["tmin"], case["tmax"], case["bt"], method=case["method"],
+                                rar_parameters=rar, nt_start=case.get("nt_start"))
+    kw = dict(key=key, rar_parameters=rar, n_start=case.get("n_start"), n=case["n"], nb=case["nb"], omega_batch_size=case["b"], omega_border_batch_size=case["bb"],
               dim=case["dim"], min_pts=tuple(case["mins"]), max_pts=tuple(case["maxs"]), method=case["method"])
     if case["kind"] == "statio":
         return CubicMeshPDEStatio(**kw)
     return CubicMeshPDENonStatio(nt=case["nt"], temporal_batch_size=case["bt"], tmin=case["tmin"],
-                                 tmax=case["tmax"], cartesian_product=case["cart"], **kw)
+                                 tmax=case["tmax"], cartesian_product=case["cart"], nt_start=case.get("nt_start"),
+                                 **kw)
 
 
 def _perm(rows0, rows):
@@ -389,6 +477,7 @@ def lean_request(case, obs):
                     "mins": [core.qstr(v) for v in case["mins"]], "maxs": [core.qstr(v) for v in case["maxs"]]})
     if case["kind"] == "nonstatio":
         req["cart"] = case["cart"]
+    req.update({"rar": bool(case.get("rar")), "n_start": case.get("n_start"), "nt_start": case.get("nt_start")})
     return req
 
 
@@ -494,6 +583,14 @@ def tags(case, obs):
         out.append("border" if case["bb"] is not None else "no_border")
     if case["kind"] == "nonstatio":
         out.append("product" if case["cart"] else "pairing")
+    if case.get("rar"):
+        out.append("rar_setup")
+        ns, bsz = (case.get("nt_start"), case["bt"]) if case["kind"] == "ode" else (case.get("n_start"), case["b"])
+        if ns:
+            out.append("n_start_multiple_of_b" if ns % bsz == 0 else "n_start_not_multiple_of_b")
+        bounds = ([(case["tmin"], case["tmax"])] if case["kind"] != "statio" else []) + \
+            (list(zip(case["mins"], case["maxs"])) if case["kind"] != "ode" else [])
+        out.append("domain_excludes_0" if any(lo > 0 or hi < 0 for lo, hi in bounds) else "domain_contains_0")
     if obs.get("error"):
         out.append(f"rejected={obs['error']}@{obs['stage']}")
     if case.get("malformed_stream"):
